@@ -293,6 +293,13 @@ class workq:
         )
 
     def pop(self, channels):
+        while True:
+            j = self._pop(channels)
+            if not j.done:
+                return j
+            # finished (killed / timed out / reported) while it sat in our mailbox: try again
+
+    def _pop(self, channels):
         try_channels = channels if channels else list(self.channel2q.keys())
 
         self._preenall()
